@@ -35,6 +35,7 @@ import (
 //	LIN    <component> <seed> <threads> <ops>   short concurrent history, checked for linearizability
 //	STRESS <component> <seed> <threads> <ops>   long concurrent workload, race detection only
 //	EBMID                                       deterministic EventsBuffer scenario (Process callback blocks mid-push)
+//	POOLMID                                     deterministic SyncedPool.Flush vs writes through store handles (three stores, the second flush blocks)
 //	SNAPMID                                     deterministic Flushable.GetSnapshot vs Flush scenario (the parent's GetSnapshot blocks)
 //
 // LIN/STRESS/EBMID are executed by build/C28/c28stress, a separate binary built WITH THE RACE DETECTOR
@@ -49,6 +50,7 @@ func c28Gen(r *rand.Rand, n int, tier string, emit func(input ...string)) {
 	}
 	emit("EBMID")
 	emit("SNAPMID")
+	emit("POOLMID")
 	for i := 0; i < n; i++ {
 		comp := c28Components[i%len(c28Components)]
 		seed := fmt.Sprint(r.Int63n(1 << 40))
